@@ -80,6 +80,7 @@ type CCase struct {
 	MaxSteps  int      `json:"max_steps"`
 	Sched     []string `json:"sched,omitempty"` // recorded schedule used as a priority order (guided replay)
 	LazyFiles bool     `json:"lazy_files,omitempty"` // leave loading of file components after a reopen to the first reader (racy inside a step)
+	NoGate    bool     `json:"no_gate,omitempty"`  // nothing parks: operations started together race natively (directed races inside one step)
 	Repeat    int      `json:"repeat,omitempty"` // run the case up to n times, stop at the first violation (races inside one step)
 }
 
@@ -113,7 +114,7 @@ func (worldC) genReload(r *core.Rand, env *core.Env) CCase {
 	c.Knobs.Partitions = 1
 	c.Knobs.MinGroupFiles = core.Pick(r, []int{2, 3})
 	c.Knobs.ReplayParallel = false
-	c.NMst, c.NSeries = 1, r.Range(1, 2)
+	c.NMst, c.NSeries = r.Range(1, 2), r.Range(1, 2)
 	c.SchedSeed = r.Uint64()
 	c.PCT = r.Bool(0.5)
 	c.PCTDepth = r.Range(1, 3)
@@ -124,7 +125,9 @@ func (worldC) genReload(r *core.Rand, env *core.Env) CCase {
 	pre := COp{T: cwTPrologue, K: "w"}
 	for s := 0; s < c.NSeries; s++ {
 		for j, n := 0, r.Range(1, 3); j < n; j++ {
-			pre.Rows = append(pre.Rows, SRow{M: 0, S: s, T: next[s], F: 15})
+			for m := 0; m < c.NMst; m++ {
+				pre.Rows = append(pre.Rows, SRow{M: m, S: s, T: next[s], F: 15})
+			}
 			next[s] += 1 + r.Intn(2)
 		}
 	}
@@ -152,14 +155,18 @@ func (worldC) genReload(r *core.Rand, env *core.Env) CCase {
 					if tt >= sNumTimes {
 						tt = sNumTimes - 1
 					}
-					op.Rows = append(op.Rows, SRow{M: 0, S: s, T: tt, F: core.Pick(r, []int{15, 15, 8, 4})})
+					for m := 0; m < c.NMst; m++ {
+						if m == 0 || r.Bool(0.7) {
+							op.Rows = append(op.Rows, SRow{M: m, S: s, T: tt, F: core.Pick(r, []int{15, 15, 8, 4})})
+						}
+					}
 				}
 				per[t] = append(per[t], op)
 			}
 		}
 		for rd := 0; rd < 2; rd++ {
 			for i, n := 0, r.Range(1, 2+round); i < n; i++ {
-				per[cwTReader1+rd] = append(per[cwTReader1+rd], COp{T: cwTReader1 + rd, K: "q", M: 0, A: 0, B: sNumTimes - 1, Desc: r.Bool(0.3), Chunk: 1024, Par: 1})
+				per[cwTReader1+rd] = append(per[cwTReader1+rd], COp{T: cwTReader1 + rd, K: "q", M: r.Intn(c.NMst), A: 0, B: sNumTimes - 1, Desc: r.Bool(0.3), Chunk: 1024, Par: 1})
 			}
 		}
 		for i, n := 0, r.Range(1, 2); i < n; i++ {
@@ -461,7 +468,7 @@ var (
 
 func cwCaseKey(c CCase) string {
 	var parts []string
-	parts = append(parts, fmt.Sprintf("%+v|%d|%d|%d|%v|%d|%s|%d|%d", c.Knobs, c.NMst, c.NSeries, c.SchedSeed, c.PCT, c.PCTDepth, c.ReadGate, c.ReadNth, c.MaxSteps) + fmt.Sprint(c.LazyFiles, c.Repeat))
+	parts = append(parts, fmt.Sprintf("%+v|%d|%d|%d|%v|%d|%s|%d|%d", c.Knobs, c.NMst, c.NSeries, c.SchedSeed, c.PCT, c.PCTDepth, c.ReadGate, c.ReadNth, c.MaxSteps) + fmt.Sprint(c.LazyFiles, c.Repeat, c.NoGate))
 	for _, op := range c.Ops {
 		parts = append(parts, cwOpDigest(op))
 	}
